@@ -196,6 +196,7 @@ func main() {
 		}
 	}
 	res.Note("total %.1fs", time.Since(t0).Seconds())
+	os.RemoveAll(scratch) // lib.Finish exits the process: deferred calls do not run
 	lib.Finish(f, res)
 }
 
